@@ -24,6 +24,7 @@ Theorem C06_siv_tag_dependence : forall v K N A P,
   Siv.siv_encrypt Perm.perm v K N A P =
   xorl P (Siv.siv_keystream Perm.perm v K (Siv.siv_tag Perm.perm v K N A P) (length P)) ++ Siv.siv_tag Perm.perm v K N A P.
 Proof. reflexivity. Qed.
+Print Assumptions C06_siv_tag_dependence.
 
 Theorem C06_siv_exact : forall v K N A C m, variant_ok v -> wf_kn v K N ->
   (Siv.siv_decrypt Perm.perm v K N A C = Some m <->
@@ -78,6 +79,7 @@ Theorem C06_key_roundtrip : forall pk, wf_pk pk -> isap_load_c (isap_save_c pk) 
 Proof. intros pk [Le La]. exact (isap_load_save pk Le La). Qed.
 Theorem C06_key_roundtrip2 : forall k, length k = 80 -> isap_save_c (isap_load_c k) = k.
 Proof. exact isap_save_load. Qed.
+Print Assumptions C06_key_roundtrip2.
 Print Assumptions C06_key_roundtrip.
 
 Example C06_nonvacuous :
